@@ -32,7 +32,11 @@ def runs(ctx):
     # baseline composition/temperature on a coarse grid known to extend and re-mesh; only the split into solve calls varies
     h1 = ctx.rng.uniform(2, 12)
     go('AlZr/euler/remeshing-grid/2-solves', kwnruns.build_binary(bins=30, minBins=20, maxBins=40), [3600 * h1, 3600 * (25 - h1)], 'euler')
-    go('AlZr/rk4', kwnruns.build_binary(x0=x0, T=T), [3600.0 * 2], 'rk4', 120 if not ctx.thorough else 1200)
+    # precipitate molar volume different from the matrix one (the volume ratio must scale fraction and content alike)
+    go('AlZr/rk4/vratio', kwnruns.build_binary(x0=x0, T=T, vratio=ctx.rng.choice([0.9, 0.9688, 1.2])), [3600.0 * 2], 'rk4', 120 if not ctx.thorough else 1200)
+    # pre-existing bimodal distribution in a supersaturated matrix: a minor population of small fast-growing particles while
+    # the coarse ones set the time step -> the face-wise limiter of the step correction is active on the growth side
+    go('AlZr/euler/loaded-bimodal/vratio', kwnruns.build_loaded_binary(ctx.rng, vratio=ctx.rng.choice([0.9, 0.9688, 1.2])), [600.0, 600.0], 'euler')
     if ctx.thorough:
         go('AlZr/euler/default-grid', kwnruns.build_binary(x0=x0, T=T), [3600 * 50.0], 'euler')
         go('AlZr/euler/fixed-grid', kwnruns.build_binary(x0=x0, T=T, adaptive=False), [3600 * 20.0], 'euler')
